@@ -9,7 +9,7 @@ from .common import LEAN, REPO, write_if_changed
 sys.path.insert(0, str(Path(__file__).resolve().parent.parent))
 
 
-ALL = ("scopemap", "builtin")
+ALL = ("scopemap", "builtin", "envconfig")
 
 
 def regenerate(which=("scopemap",)) -> dict:
@@ -22,6 +22,9 @@ def regenerate(which=("scopemap",)) -> dict:
         info = scopemap.extract(REPO)
         write_if_changed(gen / "ScopeMap.lean", scopemap.render(info))
         out["scopemap"] = info
+    if "envconfig" in which:
+        from extract import envconfig
+        write_if_changed(gen / "EnvConfig.lean", envconfig.render(REPO))
     if "builtin" in which:
         from extract import builtin_checks
         write_if_changed(gen / "BuiltinChecks.lean", builtin_checks.render(REPO))
